@@ -424,7 +424,11 @@ func (c *Ctx) rulesC06x(a *coreAnchors) {
 		if f == nil || pf == nil || cf == nil {
 			continue
 		}
-		wp, wc := len(writesOfFieldIn(f, pf)) > 0, len(writesOfFieldIn(f, cf)) > 0
+		wp, wc := false, false
+		for _, g := range c.withPrivateCallees(f) {
+			wp = wp || len(writesOfFieldIn(g, pf)) > 0
+			wc = wc || len(writesOfFieldIn(g, cf)) > 0
+		}
 		c.check(wp && wc, "C06.pair", "Subscriptions."+fn+" records the binding in "+prim+" and "+pairs[prim], f.Pos(), fmt.Sprintf("primary written: %v, ctx index written: %v — a binding missing from the ctx index is never released when its context ends", wp, wc))
 	}
 	for gc, prim := range map[string]string{"gcWhenBinding": "when", "gcWhenTimeBinding": "whenTime", "gcWhenArgsBinding": "whenArgs", "gcWhenQueryBinding": "whenQuery"} {
@@ -461,7 +465,11 @@ func (c *Ctx) rulesC06x(a *coreAnchors) {
 		if f == nil || cf == nil {
 			continue
 		}
-		for i, w := range writesOfFieldIn(f, cf) {
+		var cws []fieldWrite
+		for _, g := range c.withPrivateCallees(f) {
+			cws = append(cws, writesOfFieldIn(g, cf)...)
+		}
+		for i, w := range cws {
 			if w.Kind != "mapupdate" {
 				continue
 			}
@@ -633,4 +641,34 @@ func mutatesMapFieldVia(f *ssa.Function, fld *types.Var) bool {
 		}
 	}
 	return false
+}
+
+// withPrivateCallees: f, the helpers hosted by it, and the unexported
+// functions of its package it calls directly (a helper shared with a sibling).
+func (c *Ctx) withPrivateCallees(f *ssa.Function) []*ssa.Function {
+	out := c.hostedFns(f)
+	seen := map[*ssa.Function]bool{}
+	for _, g := range out {
+		seen[g] = true
+	}
+	for _, g := range append([]*ssa.Function{}, out...) {
+		for _, b := range g.Blocks {
+			for _, ins := range b.Instrs {
+				ci, ok := ins.(ssa.CallInstruction)
+				if !ok {
+					continue
+				}
+				if _, isGo := ins.(*ssa.Go); isGo {
+					continue
+				}
+				cal := ci.Common().StaticCallee()
+				if cal == nil || seen[cal] || cal.Parent() != nil || len(cal.Blocks) == 0 || cal.Pkg != f.Pkg || cal.Object() == nil || cal.Object().Exported() {
+					continue
+				}
+				seen[cal] = true
+				out = append(out, cal)
+			}
+		}
+	}
+	return out
 }
